@@ -25,6 +25,8 @@ import ProfiVerif.Lemmas.DpLiveMasterRun
 import ProfiVerif.Lemmas.DpLiveNRun
 import ProfiVerif.Lemmas.DpLiveMismatch
 import ProfiVerif.Lemmas.DpLiveMismatch2
+import ProfiVerif.Lemmas.DpLiveNHist
+import ProfiVerif.Lemmas.DpLiveNSilent
 
 namespace PV.C07
 open PV PV.Dp PV.Live
@@ -421,6 +423,142 @@ theorem multi_live_from_everywhere {J : JointN} {ps : List Peripheral} {k : Nat}
   rw [← h2.1] at h3
   exact h3
 
+/-! ### Several peripherals under faults: independence of the slots, any history -/
+
+/-- **multi_turn_any.**  One `transmit_telegram` of a master with `n` peripherals under ANY delivery fault
+(request lost, reply lost, reply replaced by any well-formed telegram) and an optional
+`request_diagnostics()` on any slot between request and reply: no panic, the master stays well-formed
+(`NGood`), and slot by slot the turn is a run of at most two environment steps of that slot's OWN pair
+(`StepShape`): a decline if the loop passed the slot, the visit with the turn's delivery for the slot whose
+request went out (and only that slot sees the delivery fault), a `diagReq` for the slot the user call aims
+at — every other slot is untouched.  A fault concerning slot `i` does not change slot `j ≠ i`. -/
+theorem multi_turn_any {J : JointN} {ps : List Peripheral} {k : Nat} (hN : NGood J ps k) {now : Int} (hnow : timeB now)
+    (mid : Option Nat) {d : Delivery} (hd : ∀ t, d = .sub t → RxOk t) :
+    ∃ J' o ps', J.turn now mid d = .ok J' o ∧ NGood J' ps' k ∧ J'.fp = J.fp ∧ ps'.length = ps.length ∧
+      ∀ l, l < ps.length → ∃ es, SlotRun J.fp ps J.ss ps' J'.ss l es ∧ StepShape ps mid d o l es :=
+  turnN_any hN hnow mid hd
+
+/-- **multi_projection.**  Any master-level history — turns with any delivery and mid-request user call at
+any in-range times, power cycles / fault reports / `request_diagnostics()` / output and input changes on any
+slots, interleaved arbitrarily — runs without panic, keeps the master well-formed with every pair good and
+within the joint invariant, and projects, for every slot, to a run of that slot's own pair (`PJ.run` of
+well-formed `PEnv` steps), so every per-pair theorem of this file applies to every slot. -/
+theorem multi_projection {J : JointN} {ps : List Peripheral} {k : Nat} (hN : NGood J ps k) (H : List NEnv)
+    (hw : ∀ e ∈ H, e.WellFormed) :
+    ∃ J' ps', J.mrun H = some J' ∧ NGood J' ps' k ∧ J'.fp = J.fp ∧ ps'.length = ps.length ∧
+      ∀ l, l < ps.length → ∃ es evs, (∀ e ∈ es, e.WellFormed) ∧
+        (pjAt J.fp ps J.ss l).run es = some (pjAt J.fp ps' J'.ss l, evs) := by
+  obtain ⟨J', ps', h1, h2, h3, h4, h5⟩ := multi_projection_aux H hw hN
+  refine ⟨J', ps', h1, h2, h3, h4, ?_⟩
+  intro l hl
+  obtain ⟨es, hwf, evs, hr⟩ := h5 l hl
+  exact ⟨es, evs, hwf, hr⟩
+
+/-- Start-up of a master with `n` peripherals: dense storage, Operate, cycle index at slot 0, distinct
+slave addresses, every pair good, fresh (`Initial`). -/
+structure NStart (J : JointN) (ps : List Peripheral) (k : Nat) : Prop where
+  slots : J.m.slots = denseSlots ps k
+  op : J.m.op = .operate
+  len : J.ss.length = ps.length
+  n256 : ps.length ≤ 256
+  pos : 0 < ps.length
+  fpok : FpOk J.fp
+  cycle : J.m.cycle = .dx 0
+  good : ∀ l, l < ps.length → Good (pjAt J.fp ps J.ss l) ∧ Initial (pjAt J.fp ps J.ss l)
+  addr : ∀ l, l < ps.length → (J.ss.getD l default).cfg.address ≠ 127
+  distinct : ∀ l l', l < ps.length → l' < ps.length → l ≠ l' →
+    (J.ss.getD l default).cfg.address ≠ (J.ss.getD l' default).cfg.address
+  gc : J.m.lastGc = none
+
+theorem NStart.ngood {J : JointN} {ps : List Peripheral} {k : Nat} (h : NStart J ps k) : NGood J ps k :=
+  ⟨h.slots, h.op, h.len, h.n256, h.pos, h.fpok, Or.inr ⟨0, h.cycle, h.pos⟩,
+   fun l hl => ⟨(h.good l hl).1, jinv_initial (h.good l hl).2⟩, h.addr, h.distinct,
+   by intro t ht; rw [h.gc] at ht; cases ht⟩
+
+/-- **multi_live_after_any_history.**  A master with `n` peripherals (slots `0 … n-1`), each with its own
+healthy reference slave and matching configuration: from start-up, after ANY master-level history (faults
+and user calls interleaved arbitrarily across the peripherals, broadcasts anywhere), every fault-free
+continuation has ALL peripherals `is_running()` once it contains `(max_retry_limit + 8)(n + 1) + n`
+turns that are not broadcasts — and they stay so. -/
+theorem multi_live_after_any_history {J0 : JointN} {ps0 : List Peripheral} {k : Nat} (h0 : NStart J0 ps0 k)
+    (H : List NEnv) (hw : ∀ e ∈ H, e.WellFormed) :
+    ∃ J ps, J0.mrun H = some J ∧ NGood J ps k ∧
+      ∀ (nows : List Int), (∀ t ∈ nows, timeB t) →
+        ∃ J' os, ∃ ps' : List Peripheral, J.quietTurns nows = some (J', os) ∧ NGood J' ps' k ∧
+          (KN J0.fp ps0.length ≤ nonBroadcast os → ∀ l, l < ps0.length → (ps'.getD l default).isRunning = true) := by
+  obtain ⟨J, ps, h1, hN, hfp, hlen, _⟩ := multi_projection_aux H hw h0.ngood
+  refine ⟨J, ps, h1, hN, ?_⟩
+  intro nows ht
+  obtain ⟨J', os, ps', h2, hN', _, h3⟩ := multi_live_from_everywhere hN nows ht
+  refine ⟨J', os, ps', h2, hN', ?_⟩
+  intro hk l hl
+  exact h3 (by rw [hfp, hlen]; exact hk) l (by rw [hlen]; exact hl)
+
+/-- In a fault-free continuation with `KN` non-broadcast turns every slot's pair has had at least
+`max_retry_limit + 8` fault-free visits (and nothing else). -/
+theorem multi_visit_count {J : JointN} {ps : List Peripheral} {k : Nat} (hN : NGood J ps k)
+    (nows : List Int) (ht : ∀ t ∈ nows, timeB t) :
+    ∃ J' os, ∃ ps' : List Peripheral, J.quietTurns nows = some (J', os) ∧ NGood J' ps' k ∧
+      (KN J.fp ps.length ≤ nonBroadcast os → ∀ l, l < ps.length →
+        ∃ v evs, K J.fp ≤ v ∧ (pjAt J.fp ps J.ss l).quiet v = some (pjAt J.fp ps' J'.ss l, evs)) := by
+  obtain ⟨J', os, ps', hq, hN', _, hlen', hlen, c, hv, hcount⟩ := quietTurnsN_progress nows ht hN
+  refine ⟨J', os, ps', hq, hN', ?_⟩
+  intro hk l hl
+  have hpos : posOf ps.length J'.m.cycle ≤ ps.length := by
+    rcases hN'.cycle with h | ⟨i, h, hi⟩
+    · rw [h]; exact Nat.le_refl _
+    · rw [h]; simp only [posOf]; omega
+  obtain ⟨v, evs, hquiet, hvc⟩ := hv l hl
+  refine ⟨v, evs, ?_, hquiet⟩
+  unfold KN at hk
+  rcases count_bound hcount hpos hk with h | ⟨h1, h2, h3⟩
+  · unfold ind at hvc; split at hvc <;> split at hvc <;> omega
+  · rw [h2, h3] at hvc
+    simp only [ind, hl, if_true, Nat.not_lt_zero, if_false] at hvc
+    omega
+
+/-- **multi_offline_once** (the second half of C07 for several peripherals).  Turns under a fault plan by
+address (`runF`: what happens to an exchange depends on the station addressed; the other slots may be
+served, lose telegrams or get substituted replies in any way).  If every exchange addressed to slave `l`
+is lost — slave `l` is silent — then, whatever the other slots do, the pair of slot `l` sees exactly `v`
+lost requests and nothing else (independence), hence: no event while `v ≤ max_retry_limit + 1 - retry`,
+then exactly one `Offline` event and never another one, `is_live()` false from then on (the offline
+peripheral is re-probed every other visit, `offline_reported_once`). -/
+theorem multi_offline_once {J : JointN} {ps : List Peripheral} {k : Nat} (hN : NGood J ps k) {l : Nat}
+    (hl : l < ps.length) (hlive : (ps.getD l default).isLive = true) (F : List (Int × (UInt8 → Delivery)))
+    (hok : PlanOk F) (hsil : ∀ x ∈ F, x.2 (J.ss.getD l default).cfg.address = .lossReq) :
+    ∃ J' v evs, ∃ ps' : List Peripheral, J.runF F = some J' ∧ NGood J' ps' k ∧
+      (pjAt J.fp ps J.ss l).run (List.replicate v (.visit false .lossReq)) = some (pjAt J.fp ps' J'.ss l, evs) ∧
+      evs = (if J.fp.maxRetry + 2 - (ps.getD l default).retry ≤ v then [.offline] else []) ∧
+      ((ps'.getD l default).isLive = false ↔ J.fp.maxRetry + 2 - (ps.getD l default).retry ≤ v) := by
+  obtain ⟨J', ps', v, h1, hN', _, _, _, evs0, hr⟩ := silent_slot F hok hN hl hsil
+  obtain ⟨j', evs, h2, h3, h4⟩ := offline_reported_once (hN.ok l hl).1 hlive v
+  rw [hr] at h2
+  simp only [Option.some.injEq, Prod.mk.injEq] at h2
+  obtain ⟨rfl, rfl⟩ := h2
+  exact ⟨J', v, evs0, ps', h1, hN', hr, h3, h4⟩
+
+/-- **multi_online_again.**  When the slave of an offline peripheral answers again (fault-free
+continuation for all slots), the events of that slot's pair are `Online`, `Configured`, then only
+`DataExchanged` / `Diagnostics`, and it is running — within `KN` non-broadcast turns like every other slot. -/
+theorem multi_online_again {J : JointN} {ps : List Peripheral} {k : Nat} (hN : NGood J ps k) {l : Nat}
+    (hl : l < ps.length) (hoff : (ps.getD l default).isLive = false) (nows : List Int) (ht : ∀ t ∈ nows, timeB t) :
+    ∃ J' os, ∃ ps' : List Peripheral, J.quietTurns nows = some (J', os) ∧ NGood J' ps' k ∧
+      (KN J.fp ps.length ≤ nonBroadcast os →
+        ∃ v rest, (pjAt J.fp ps J.ss l).quiet v = some (pjAt J.fp ps' J'.ss l, .online :: .configured :: rest) ∧
+          (∀ e ∈ rest, e = .dataExchanged ∨ e = .diagnostics) ∧ (ps'.getD l default).isRunning = true) := by
+  obtain ⟨J', os, ps', hq, hN', hcount⟩ := multi_visit_count hN nows ht
+  refine ⟨J', os, ps', hq, hN', ?_⟩
+  intro hk
+  obtain ⟨v, evs, hv, hquiet⟩ := hcount hk l hl
+  have hv8 : 8 ≤ v := by unfold K at hv; omega
+  obtain ⟨j', rest, h1, h2⟩ := online_configured_again (hN.ok l hl).1 (hN.ok l hl).2 hoff hv8
+  obtain ⟨j'', evs', h3, h4⟩ := live_from_everywhere (hN.ok l hl).1 (hN.ok l hl).2 (n := v) hv
+  rw [hquiet] at h1 h3
+  simp only [Option.some.injEq, Prod.mk.injEq] at h1 h3
+  refine ⟨v, rest, by rw [hquiet, h1.2], h2, ?_⟩
+  rw [← h3.1] at h4; exact h4
+
 /-! ## Outside the scope: a configuration that does not match
 
 `CfgMismatch j`: address, ident number and parameter length agree, the configuration bytes of the
@@ -591,5 +729,49 @@ example : PrmMismatch Ex.jId ∧ Probing Ex.jId :=
 
 example : (Ex.jId.quiet 10).map (fun r => (r.1.p.isRunning, r.2)) =
     some (false, [.online, .offline, .online, .offline]) := by decide +kernel
+
+/-- The two-peripheral example is a start-up state (`NStart`), and a history with faults on both slots, a
+power cycle, a fault report and user calls is well-formed: the hypotheses of `multi_live_after_any_history`
+are satisfiable; evaluated, the history followed by 40 fault-free turns has both peripherals running. -/
+theorem Ex.nstart2 : NStart Ex.J2 [Dp.Ex.p7, Ex.p9] 1 where
+  slots := rfl
+  op := rfl
+  len := rfl
+  n256 := by decide
+  pos := by decide
+  fpok := Dp.Ex.fp_ok
+  cycle := rfl
+  good := by
+    intro l hl
+    match l, hl with
+    | 0, _ => exact ⟨Ex.good, Ex.initial⟩
+    | 1, _ => exact ⟨Ex.good9, ⟨rfl, rfl, rfl, rfl, rfl⟩⟩
+  addr := Ex.ngood2.addr
+  distinct := Ex.ngood2.distinct
+  gc := rfl
+
+def Ex.hist2 : List NEnv :=
+  [.turn 1000 none .ok, .turn 4000 none .ok, .turn 7000 none .lossRep, .turn 10000 (some 1) .lossReq, .power 0,
+   .fault 1 [0x42, 0x01], .diagReq 0, .turn 13000 none .ok, .turn 16000 (some 0) .lossRep, .inputs 0 [0x77]]
+
+example : ∀ e ∈ Ex.hist2, e.WellFormed := by
+  intro e he
+  simp only [Ex.hist2, List.mem_cons, List.mem_nil_iff, or_false] at he
+  rcases he with rfl | rfl | rfl | rfl | rfl | rfl | rfl | rfl | rfl | rfl <;>
+    first
+    | trivial
+    | exact ⟨by unfold timeB; constructor <;> decide, by intro t h; cases h⟩
+
+example : ((Ex.J2.mrun Ex.hist2).bind fun J =>
+      (J.quietTurns ((List.range 40).map fun (i : Nat) => ((20000 + 3000 * i : Nat) : Int))).map fun r =>
+        ((List.range 2).map fun l => (r.1.m.peripheral? l).map Peripheral.isRunning)) = some [some true, some true] := by
+  decide +kernel
+
+/-- A silent slave #9 next to a healthy #7 (`runF`, retry limit 1): evaluated, after 12 turns slot 1 is
+offline, slot 0 running. -/
+example : ((Ex.J2.runF ((List.range 16).map fun (i : Nat) =>
+      (((1000 + 3000 * i : Nat) : Int), fun (a : UInt8) => if a = 9 then Delivery.lossReq else Delivery.ok))).map fun J =>
+      (List.range 2).map fun l => (J.m.peripheral? l).map fun p => (p.isLive, p.isRunning)) =
+    some [some (true, true), some (false, false)] := by decide +kernel
 
 end PV.C07
